@@ -73,7 +73,9 @@ def static_part(pid, rep, S, components, cov):
         if r.get("model_mismatch") and any(c in components for c in r.get("mismatch_kinds", ["verdict", "sig", "items"])):
             why.append("model and implementation differ (%s)" % ",".join(r.get("mismatch_kinds", ["?"])))
         for p in r["problems"]:
-            if "unparsed" in p and "items" in components:
+            if ("unparsed" in p or "never assigned" in p) and "items" in components:
+                why.append(p)
+            if p.startswith("surface:") and "surface" in components:
                 why.append(p)
         if why:
             bad.append((r, why))
@@ -109,7 +111,7 @@ def check_layer_ab(pid, tier, seed, rep):
     import stage_s, stage_d
     cov = prove(pid, rep)
     S = stage_s.stage(seed, tier)
-    bad = static_part(pid, rep, S, {"items"}, cov)
+    bad = static_part(pid, rep, S, {"items", "surface"} if pid in ("C06", "C07", "C08") else {"items"}, cov)
     D = stage_d.stage(seed, tier)
     mine = [f for f in D["findings"] if f["prop"] == pid]
     viol = [f for f in mine if f["verdict"] == "violation"]
